@@ -4,8 +4,9 @@
     specification without any slot, in which children are lexically scoped values.  They hold for every set of
     templates (any call graph, recursion included) and every nesting depth (fuel).
     OBLIGATIONS: C05_children_lexical C05_template_lexical C05_slot_empty_afterwards C05_childless_call_sees_none
-      C05_nonvacuous *)
+      C05_generated_code_follows_protocol C05_nonvacuous *)
 From GV Require Import Runtime.Children Proofs.RuntimeProofs.
+From GV Require Compiler.Emit Proofs.SegProofs.
 
 Theorem C05_children_lexical : forall templates fuel stmts children,
   exec_stmts templates fuel stmts children None = (denote_stmts templates fuel stmts children, None).
@@ -31,6 +32,15 @@ Print Assumptions C05_childless_call_sees_none.
 
 (** non-vacuity: a layout using its children twice, a page whose block forwards the page's own children and calls
     a child-less template that itself contains @children *)
+(** that generated code does follow the protocol the model assumes: for every tree of the fragment of
+    Proofs/SegProofs.v, `= @children` is emitted as  __children.Render(ctx, __buf),  `= @render X` without nested
+    content as  X.Render(ctx, __buf),  and with nested content as a goht.TemplateFunc holding the code of that
+    content, handed over by  X.Render(goht.PushChildren(ctx, v), __buf)  (constructors [d_children], [d_render],
+    [d_render_block] of [SegProofs.denotes]); from either writer mode, at any nesting depth *)
+Theorem C05_generated_code_follows_protocol : forall n, SegProofs.node_run_at n.
+Proof. exact SegProofs.dyn_node_runs. Qed.
+Print Assumptions C05_generated_code_follows_protocol.
+
 Example C05_nonvacuous :
   let layout := [SLit (lit "<l>"); SChildren; SLit (lit "|"); SChildren; SLit (lit "</l>")] in
   let inner := [SLit (lit "(i"); SChildren; SLit (lit ")")] in
